@@ -110,7 +110,10 @@ pub fn run(tier: &str, seed: u64, report: &mut Report) {
             if rec.kind == "backup" && si > 0 && run.records[si - 1].kind == "backup-crash" {
                 let real = rec.real.as_ref().unwrap();
                 let st = state_map(&rec.state_before);
-                if let Some(ib) = all_bands(&rec.state_before).into_iter().max() {
+                // the band the interrupted run created (if it got that far): new w.r.t. the state before the
+                // interrupted run, and the newest one now
+                let before_crash: std::collections::BTreeSet<u32> = all_bands(&run.records[si - 1].state_before).into_iter().collect();
+                if let Some(ib) = all_bands(&rec.state_before).into_iter().max().filter(|b| !before_crash.contains(b)) {
                     let recorded_files = band_entries(&st, ib).into_iter().filter(|(_, e)| e.kind == 'f').count();
                     let unmodified: usize = real.result.split(' ').find_map(|t| t.strip_prefix("unmodified_files=")).and_then(|v| v.parse().ok()).unwrap_or(0);
                     report.hit("resume-after-interruption");
